@@ -254,7 +254,7 @@ def features(a) -> set[str]:
                 if len(set(chunks)) > 1:
                     per = 2 if isinstance(et, b.ComplexType) else 1
                     tup = [tuple(vals[i * per:(i + 1) * per]) for i in range(len(chunks))]
-                    if all(t == tup[0] for t in tup):
+                    if all(all(p == q for p, q in zip(t, tup[0])) for t in tup):  # float ==: NaN never equal
                         out.add("dense_float_mixed_zero")
         if isinstance(n, b.DenseArrayBase) and isinstance(n.elt_type, b.AnyFloat):
             if any(_prints_hex(v, n.elt_type) for v in n.elt_type.iter_unpack(n.data.data)):
